@@ -23,7 +23,12 @@ RULE = (
     'variable and one for all variables at once. Oracle: reference '
     'resolver written from the documentation; read == node value; write '
     'changes exactly the resolved nodes by exactly the returned deltas '
-    '(full before/after diff). Distinct by (shape, written variable).')
+    '(full before/after diff). Distinct by (shape, written variable). '
+    'Alias family: 3 ports (two on one store) x port order x one / two '
+    'stores x depth x {fresh, shared between two ports, shared one level '
+    'down} update dictionaries x {new, same} update object per call x 1 / '
+    '3 steps; exactly the wired nodes change, by exactly one delta per '
+    'returned update.')
 ASSUMPTIONS = [
     'topologies that omit a declared port, or _path-less dictionaries that '
     'list only some variables, are outside the well-formed alphabet',
@@ -46,7 +51,12 @@ def plan(shape):
     # glob stores and their children
     dummy = {}
     children = {}
-    rr._globs(schema, topology, place, _Everything(), children)
+    rests = {}
+    rr._globs(schema, topology, place, _Everything(), children, rests)
+    if any(any(r != rs[0] for r in rs) for rs in rests.values()):
+        # two glob ports over one store that rename its children's
+        # variables differently: a store has ONE sub-topology
+        return None
     children = {k: list(shapes.GLOB_CHILDREN) for k in children}
     mapping = rr.resolve(schema, topology, place, children)
     if any(n is None for n in mapping.values()):
@@ -215,20 +225,118 @@ def replaced_store_worlds(acc):
                 break
 
 
+# ----------------------------------------------------------------------
+# update objects shared between ports / reused between invocations
+
+ALIAS_PORTS = ('p0', 'p1', 'p2')
+
+
+def alias_jobs():
+    import itertools
+    out = []
+    for order in itertools.permutations(ALIAS_PORTS):
+        for wiring in ('two-stores', 'one-store'):
+            for depth in (0, 1):
+                for share in ('none', 'port', 'sub'):
+                    if share == 'sub' and depth == 0:
+                        continue
+                    for reuse in (False, True):
+                        for steps in (1, 3):
+                            out.append(('alias', order, wiring, depth,
+                                        share, reuse, steps))
+    return out
+
+
+def alias_world(order, wiring, depth, share, reuse, steps):
+    """p0 and p2 carry x (+1 each), p1 carries y (+2), p3 declares y at
+    p2's store and is never updated.  two-stores: p0, p1 -> tank; p2, p3 ->
+    reserve.  one-store: everything on tank (p0/x and p2/x are one node)."""
+    def port(var):
+        leafs = {var: shapes.leaf()}
+        return {'sub': leafs} if depth else leafs
+
+    def upd(var, delta, same=None):
+        body = {var: delta}
+        if same and share == 'sub':
+            body = {'$same': same, 'value': body}
+        body = {'sub': body} if depth else body
+        if same and share == 'port':
+            body = {'$same': same, 'value': body}
+        return body
+    schema = {'p0': port('x'), 'p1': port('y'), 'p2': port('x'),
+              'p3': port('y')}
+    other = ('reserve',) if wiring == 'two-stores' else ('tank',)
+    wires = {'p0': ('tank',), 'p1': ('tank',), 'p2': other, 'p3': other}
+    topology = {k: wires[k] for k in order}
+    topology['p3'] = wires['p3']
+    update = {'p0': upd('x', 1, 'D'), 'p1': upd('y', 2),
+              'p2': upd('x', 1, 'D')}
+    update = {k: update[k] for k in order}
+    init = {'x': 10, 'y': 20}
+    state = {'tank': {'sub': dict(init)} if depth else dict(init)}
+    if wiring == 'two-stores':
+        state['reserve'] = {'sub': {'x': 30, 'y': 40}} if depth else \
+            {'x': 30, 'y': 40}
+    return {'processes': {'proc': {
+        'cls': 'P', 'pid': 'proc', 'ts': 1, 'schema': schema,
+        'update': update, 'reuse_update': reuse}},
+        'topology': {'proc': topology}, 'state': state,
+        'script': [('update', steps)]}
+
+
+def run_alias(job, acc):
+    _, order, wiring, depth, share, reuse, steps = job
+    case = {'shape': 'alias', 'job': job}
+    V = lambda rule, fp, msg: acc.violate(  # noqa
+        fw.violation(rule, fp, msg, case))
+    spec = alias_world(order, wiring, depth, share, reuse, steps)
+    ex = worlds.execute(spec)
+    acc.case(key=job, outcome=f'alias:{wiring}:{share}:'
+             f'{"reuse" if reuse else "fresh"}')
+    label = f'{wiring}, depth {depth}, shared {share}, ' \
+        f'{"reused" if reuse else "fresh"} update object, ports {order}'
+    if ex.error:
+        V('C06.crash', f'alias:{type(ex.error[2]).__name__}',
+          f'{label}: unexpected {ex.error[2]!r}')
+        return
+    got = worlds.probes.pure(ex.engine.state.get_value())
+    got.pop('proc', None)
+    if wiring == 'two-stores':
+        want = {'tank': {'x': 10 + steps, 'y': 20 + 2 * steps},
+                'reserve': {'x': 30 + steps, 'y': 40}}
+    else:
+        want = {'tank': {'x': 10 + 2 * steps, 'y': 20 + 2 * steps}}
+    if depth:
+        want = {k: {'sub': v} for k, v in want.items()}
+    if got != want:
+        V('C06.write', f'alias:update-object-shared-{share}:'
+          f'{"reused" if reuse else "fresh"}:{wiring}',
+          f'{label}: after {steps} step(s) the hierarchy holds {got}, '
+          f'expected {want}: an update reached a node its port is not '
+          f'wired to, or was applied more than once')
+
+
 def run_job(shape, acc):
     if shape == 'replaced-store':
         replaced_store_worlds(acc)
+        return
+    if isinstance(shape, tuple) and shape[0] == 'alias':
+        run_alias(shape, acc)
         return
     check_shape(shape, acc)
 
 
 def run(ctx):
-    return ctx.map(run_job, all_shapes(ctx) + ['replaced-store'])
+    return ctx.map(run_job, all_shapes(ctx) + ['replaced-store'] +
+                   alias_jobs())
 
 
 def replay(case):
     acc = fw.Acc()
-    if case['shape'] is None:
+    if case['shape'] == 'alias':
+        j = case['job']
+        run_alias((j[0], tuple(j[1])) + tuple(j[2:]), acc)
+    elif case['shape'] is None:
         replaced_store_worlds(acc)
     else:
         check_shape(case['shape'], acc)
